@@ -27,6 +27,7 @@ class World:
         self.salt = salt
         self.base = base
         self._docs = {}
+        self.seen = {}          # key -> signature entries made so far over ANY content (what an on-path attacker can copy)
 
     def doc(self, c):
         key = (c["ver"], tuple(sorted(c["rk"])), c["rt"], c["tag"])
@@ -40,7 +41,10 @@ class World:
             self._docs[key] = d
         return copy.deepcopy(self._docs[key])
 
-    def envelope(self, c, signers, r):
+    def envelope(self, c, signers, r, decoys=True):
+        """Envelope for content c validly signed by `signers`.  Every other key may additionally carry an entry copied
+        verbatim from an earlier envelope (a genuine signature by that key over OTHER content): such entries never
+        count in the specification, and an on-path attacker can always add them."""
         d = self.doc(c)
         b = twin_canon(d)
         sigs = {}
@@ -48,8 +52,17 @@ class World:
         r.shuffle(order)
         for k in order:
             h = r.choice(gamma.HEADERS)
-            sigs[self.keys.pub[int(k)]] = {"other_headers": h.hex(), "signature": self.keys.sign(int(k), crypto.gpg_digest(b, h)).hex()}
-        return {"signatures": sigs, "signed": d}
+            ent = {"other_headers": h.hex(), "signature": self.keys.sign(int(k), crypto.gpg_digest(b, h)).hex()}
+            sigs[self.keys.pub[int(k)]] = ent
+            self.seen.setdefault(int(k), []).append((b, copy.deepcopy(ent)))
+        if decoys:
+            for k, lst in self.seen.items():
+                others = [e for (bb, e) in lst if bb != b]
+                if self.keys.pub[k] not in sigs and others and r.random() < 0.6:
+                    sigs[self.keys.pub[k]] = copy.deepcopy(r.choice(others))
+        items = list(sigs.items())
+        r.shuffle(items)
+        return {"signatures": dict(items), "signed": d}
 
     def alpha(self, root):
         """Project a concrete trusted root back to an abstract content."""
